@@ -14,7 +14,7 @@ Ltac bm :=
 
 Ltac destruct_state s :=
   let xc := fresh "xc" in let xs := fresh "xs" in
-  destruct s as [xc xs m_ cl_ sv_ wbc_ wbs_ scc_ ccc_ clo_ dn_ tr_];
+  destruct s as [xc xs m_ cl_ sv_ wbc_ wbs_ scc_ ccc_ clo_ dn_ tr_ dlc_ dls_];
   destruct xc as [rdc wrc wfc wec chc quc rfc inc];
   destruct xs as [rds wrs wfs wes chs qus rfs ins].
 
@@ -28,15 +28,19 @@ Proof.
   destruct_state s.
   destruct l; try discriminate Hi; try destruct d;
     cbn [step getd setd with_rd with_rd_rf exit_failed set_trig
-         dc ds main cli srv wbroken_c wbroken_s sc_closed cc_closed closing done trig
+         dc ds main cli srv wbroken_c wbroken_s sc_closed cc_closed closing done trig dleak_c dleak_s dleak set_dleak
          rd wr wfailed werr chan queued rf inflight other] in Hs;
     repeat bm; try discriminate Hs; inversion Hs; subst; clear Hs;
     unfold measure, dir_measure;
-    cbn [exit_failed set_trig getd setd with_rd with_rd_rf dc ds main cc_closed rd wr wfailed werr chan queued rf inflight
+    cbn [exit_failed set_trig set_dleak getd setd with_rd with_rd_rf dc ds main cc_closed rd wr wfailed werr chan queued rf inflight
          rd_rank rf_rank kcost b2n writer_alive negb fold_right other];
     try lia;
     repeat match goal with t : side |- _ => destruct t end;
-    cbn [exit_failed set_trig getd setd with_rd with_rd_rf dc ds main cc_closed rd wr wfailed werr chan queued rf inflight
+    repeat match goal with
+           | |- context [if ?b then _ else _] => destruct b
+           | |- context [match ?o with Some _ => _ | None => _ end] => is_var o; destruct o
+           end;
+    cbn [exit_failed set_trig set_dleak getd setd with_rd with_rd_rf dc ds main cc_closed rd wr wfailed werr chan queued rf inflight
          rd_rank rf_rank kcost b2n writer_alive negb fold_right other];
     lia.
 Qed.
